@@ -15,6 +15,9 @@ pub enum Front {
     /// raw::Builder fed through ALL its entry points in one session: runs of entries go through extend_iter / extend_stream,
     /// single entries through add (value 0) or insert
     RawMixedBulk,
+    /// raw::Builder where every other key is offered a second time through add() right after it was accepted: by the set rule
+    /// a repeat is a no-op, so the result must be the one of a build without the repeats
+    RawMixedRepeats,
     RawAdd,
     RawNewVec,
     RawExtendIter,
@@ -32,10 +35,11 @@ pub enum Front {
     SetFromIter,
 }
 
-pub const MAP_FRONTS: [Front; 12] = [
+pub const MAP_FRONTS: [Front; 13] = [
     Front::RawShortSink,
     Front::RawMixed,
     Front::RawMixedBulk,
+    Front::RawMixedRepeats,
     Front::RawMemoryInsert,
     Front::RawNewVec,
     Front::RawExtendIter,
@@ -137,6 +141,23 @@ pub fn build(front: Front, kv: &Kv) -> Result<Vec<u8>, String> {
                     e(b.add(k))?;
                 } else {
                     e(b.insert(k, *v))?;
+                }
+            }
+            e(b.into_inner())
+        }
+        Front::RawMixedRepeats => {
+            let mut b = Builder::memory();
+            for (i, (k, v)) in kv.iter().enumerate() {
+                if *v == 0 && i % 3 == 0 {
+                    e(b.add(k))?;
+                } else {
+                    e(b.insert(k, *v))?;
+                }
+                if i % 2 == 0 {
+                    e(b.add(k))?;
+                    if i % 4 == 0 {
+                        e(b.add(k))?;
+                    }
                 }
             }
             e(b.into_inner())
